@@ -30,6 +30,8 @@ pub struct FsPlanFile {
 
 #[derive(Debug, Clone, Serialize, Deserialize)]
 pub struct ScenarioFile {
+    #[serde(default)]
+    pub entropy: u64,
     pub sessions: Vec<Vec<StmtFile>>,
     /// path -> hex bytes
     pub disk: BTreeMap<String, String>,
@@ -152,6 +154,7 @@ pub fn policy_from_string(s: &str) -> Policy {
 
 pub fn scenario_to_file(sc: &Scenario) -> ScenarioFile {
     ScenarioFile {
+        entropy: sc.entropy,
         sessions: sc
             .sessions
             .iter()
@@ -202,6 +205,7 @@ pub fn scenario_from_file(f: &ScenarioFile) -> Scenario {
         }
     };
     Scenario {
+        entropy: f.entropy,
         sessions: f
             .sessions
             .iter()
